@@ -11,6 +11,12 @@ R01.1 "any pointer alignment": in every kernel the assembly managers call (and t
 R01.2 "a context reused for a new message yields a digest that depends on the new message only": under FIRST,
       every _ctx_mgr_submit_<family> resets total_length, partial_block_buffer_length and the digest before
       reading them (same rule instance as C20 R20.4, decided on IR paths).
+R01.6 lane data pointers are 64-bit quantities: in every kernel, an arithmetic instruction that reads the data_ptr
+      array of the manager's argument block (extent from DWARF), or that defines (within the same basic block) a
+      register later stored into that array, works on 64-bit lanes / 64-bit registers - a 32-bit add would drop the
+      carry when a buffer crosses a 4 GiB boundary.
+R01.7 block loops keep their accumulators: in no kernel is a state location re-loaded in every loop iteration, left
+      unwritten inside the loop and written back from a loop-computed register only afterwards.
 R01.3 every context-layer unit (one per CPU family and algorithm) carries the algorithm's standard initial hash
       value, complete: SHA-1 / SHA-256 / SHA-512 (FIPS 180-4 5.3), MD5 (RFC 1321 3.3), SM3 (GB/T 32905 4.1).
 R01.4 every unit that implements an algorithm's round function carries the complete standard round-constant set
@@ -24,6 +30,7 @@ import re
 import absint
 import align
 import build
+import cands
 import c19
 import c20
 import ir
@@ -89,6 +96,63 @@ def worker(lib, objname, extra):
                 out["sinks"] += 1
                 if bad is None and (isdata or rs is None):
                     bad = (i, nd, rs is None)
+            # R01.6 pointer-lane width
+            reg = extra["ptr_region"].get(objname.split("_")[0])
+            if reg and datareg is None:
+                lo_, hi_ = reg
+                out["ptr_kernels"] = out.get("ptr_kernels", 0) + 1
+                nupd = 0
+                badw = None
+
+                def in_region(i):
+                    m = p1.maddr.get(i.addr)
+                    if m is None:
+                        return False
+                    v = m[0]
+                    if v[0] == "init" and v[1] == "RDI" and lo_ <= v[2] < hi_:
+                        return True
+                    return False
+
+                def narrow(i):
+                    mn = i.text.strip().split()[0].lower()
+                    mm = re.match(r"^v?p(add|sub)(us|s)?([bwdq])$", mn)
+                    if mm:
+                        return mm.group(3) != "q"
+                    if re.match(r"^(ADD|SUB|INC|DEC|ADC|SBB)(32|16|8)", i.op) or i.op in ("LEA64_32r", "LEA32r"):
+                        return True
+                    return False
+
+                def is_arith(i):
+                    mn = i.text.strip().split()[0].lower()
+                    return bool(re.match(r"^v?p(add|sub)", mn)) or bool(re.match(r"^(ADD|SUB|INC|DEC|ADC|SBB|LEA)", i.op))
+                for bl in f.blocks.values():
+                    for k, i in enumerate(bl):
+                        if i.mem < 0 or not in_region(i):
+                            continue
+                        if i.reads_mem_operand() and is_arith(i):
+                            nupd += 1
+                            if narrow(i) and badw is None:
+                                badw = (i, "adds to the lane data pointers it reads from the argument block")
+                        if i.writes_mem_operand() and i.mem + 5 < len(i.ops) and i.ops[i.mem + 5][0] == "r":
+                            src = i.ops[i.mem + 5][1]
+                            key_ = x86.vec_of(src) if x86.vec_of(src) is not None else x86.PARENT.get(src)
+                            for j in reversed(bl[:k]):
+                                dd = [x86.vec_of(r) if x86.vec_of(r) is not None else x86.PARENT.get(r) for r in j.explicit_defs()]
+                                if key_ not in dd:
+                                    continue
+                                if is_arith(j):
+                                    nupd += 1
+                                    if narrow(j) and badw is None:
+                                        badw = (j, "computes the value `%s` stores back into the lane data pointers" % i.text.strip())
+                                break
+                out["ptr_updates"] = out.get("ptr_updates", 0) + nupd
+                if badw:
+                    i, why = badw
+                    out["findings"].append({"rule": "R01.6", "obj": objname, "function": name, "construct": "pointer-width",
+                                            "message": "`%s` %s with lanes / registers narrower than 64 bits: the carry out of bit 31 is lost, so a lane whose buffer crosses a 4 GiB boundary continues reading 4 GiB lower" % (i.text.strip(), why),
+                                            "loc": o.line_of(key[1], i.addr) or "%s+%#x" % (objname, i.addr)})
+                else:
+                    out["ptr_ok"] = out.get("ptr_ok", 0) + 1
             if bad:
                 i, nd, unk = bad
                 out["findings"].append({"rule": "R01.1", "obj": objname, "function": name, "construct": "align:data" if not unk else "align:unknown-address",
@@ -177,7 +241,17 @@ def run(chk):
     chk.extra["build"] = stats
     hash_objs = sorted(o.name for o in lib.objs if (o.src or "").split("/")[0] in DIRS)
     # pass 1: managers -> kernels
-    res = par.map_objects(lib, worker, [n for n in hash_objs if "_mb_mgr_" in n], extra={"kernels": {}})
+    # extent of the data_ptr array inside the manager's argument block, per algorithm (DWARF)
+    ptr_region = {}
+    rmods = ir.load_modules([u for u in units if u["kind"] == "c" and re.match(r"^(sha1|sha256|sha512|md5|sm3)_mb/\w+_ctx_(sse|avx2)\.c$", u["src"])])
+    for src_, M_ in rmods.items():
+        for n_, ds in M_.distructs.items():
+            ms = {m["name"]: (m["off"], m["size"]) for m in ds["members"]}
+            if "data_ptr" in ms and "digest" in ms and "_MB_ARGS_" in n_:
+                ptr_region[src_.split("/")[0].split("_")[0]] = (ms["data_ptr"][0], ms["data_ptr"][0] + ms["data_ptr"][1])
+    chk.floor("argument-block layouts (data_ptr extent) found", len(ptr_region), 5)
+    chk.extra["data_ptr_extent"] = ptr_region
+    res = par.map_objects(lib, worker, [n for n in hash_objs if "_mb_mgr_" in n], extra={"kernels": {}, "ptr_region": ptr_region})
     kernels = collections.defaultdict(dict)
     nmgr = 0
     for objname, r in res.items():
@@ -198,21 +272,33 @@ def run(chk):
     nk = sum(len(v) for v in kernels.values())
     chk.floor("manager objects scanned for kernel calls", nmgr, 40)
     chk.floor("kernels reached from the managers", nk, 25)
-    res = par.map_objects(lib, worker, sorted(kernels), extra={"kernels": dict(kernels)})
+    res = par.map_objects(lib, worker, sorted(kernels), extra={"kernels": dict(kernels), "ptr_region": ptr_region})
     tot = collections.Counter()
     for objname in sorted(res):
         r = res[objname]
         for k in ("kernels", "sinks", "data_acc", "ok"):
             tot[k] += r[k]
+        for k in ("ptr_kernels", "ptr_updates", "ptr_ok"):
+            tot[k] += r.get(k, 0)
         for b in r["broken"]:
             chk.broke(b)
         for fd in r["findings"]:
             chk.finding(Finding(fd["rule"], fd["obj"], fd["function"], fd["construct"], fd["message"], loc=fd["loc"]))
     chk.obligations["R01.1"] = [tot["kernels"], tot["ok"]]
+    chk.obligations["R01.6"] = [tot["ptr_kernels"], tot["ptr_ok"]]
+    chk.floor("kernels checked for pointer-lane width", tot["ptr_kernels"], 20)
+    chk.floor("data-pointer update instructions seen", tot["ptr_updates"], 40)
     chk.floor("kernels analysed", tot["kernels"], 25)
     chk.floor("data accesses through lane-table pointers seen", tot["data_acc"], 400)
     for kn in sorted(n for v in kernels.values() for n in v):
         chk.distinct.add(("kernel", kn))
+    nbind = cands.binding_rule(chk, "R01.5", lib, ['_sha1_', '_sha256_', '_sha512_', '_md5_', '_sm3_'])
+    chk.floor("implementations checked for binding ownership", nbind, 1)
+    # R01.7
+    import mhrules
+    kn = sorted(n for v in kernels.values() for n in v)
+    nls = mhrules.loop_state_rule(chk, "R01.7", lib, "^(" + "|".join(re.escape(x) for x in kn) + ")$")
+    chk.floor("kernels with loops checked for accumulator discipline", nls, 25)
     # R01.2
     mods = ir.load_modules([u for u in units if u["kind"] == "c" and c20.CTX_UNIT.match(u["src"])])
     c20.ir_rules(_Proxy(chk), mods)
